@@ -26,6 +26,7 @@ EXPLANATION = (
     "graph whether or not it carries an alias (the DROP guard relies on it), so adding or removing an alias cannot change what a later "
     "DROP removes. Does not decide: clashes between derived tables sharing an alias in sibling scopes beyond identity (reported under C18)."
     ' R08.6 the alias name is never picked at a child position where the grammar of the installed dialects allows the alias operator, the column list or a keyword (first / last child types computed from the grammar, minus the types the code filters out). R08.2 also covers look-ups written as a scan over the CTE collection.'
+    ' R08.7 whether a statement-local name is used or visible is never decided by searching SQL text for it.'
 )
 RULE_TEXT = "one obligation per alias-keyed dictionary look-up, per CTE look-up guard, per identity clause, per read-trace site"
 
